@@ -5,6 +5,38 @@ independent periodic Voronoi construction (scipy/Qhull on 3^d images, float64) f
 multisets and bond weights; (3) hand-off to read_neighbors; (4) VolumeMatrix: zero row sums per displaced
 coordinate, independent central differences of the scipy cell volumes, frame selection (metamorphic: frame k of a
 trajectory == that frame alone), output-file round trip.
+
+CLAUSES (statement + quantifier split into axes; facet -> deciding assertion; class tags measured in
+evidence/C20.json coverage.facets.<facet>.classes)
+
+ a  any 2D or 3D periodic configuration                   files2d* / files3d*: d2, d3; uniform / clustered / lattice-jit; N1-3,
+                                                          N4-11, N<=20, N>20, N>100 (files*_medium), N>2^16 (files2d_large);
+                                                          self-image-bonds / no-self-bonds; box-thin / box-bulk
+ b  in an orthogonal box (any origin)                     origin-zero / -arbitrary / -centred / -sumzero; unequal edges; box-float /
+                                                          box-int64 (edges and bounds as int64 arrays); inside / outside (image
+                                                          offsets); box-varies (another box per frame)
+ c  the three files list every particle once per frame    parse_framed / parse_overall: one header + N rows per frame, ids 1..N in
+    in id order                                           order (frames1..3, ts-regular / ts-repeat / ts-back labels, frame-
+                                                          stored-twice; out-abs / out-rel / out-dotted / out-subdir names;
+                                                          again-decoy-first: an older, longer result under the same name;
+                                                          again-inplace: the same Snapshots object refilled between two calls)
+ d  cn = number of listed neighbours = number of weights  require(len(ids) == len(weights) == overall cn) per row
+ e  the neighbour relation is symmetric                   multiset alignment of (i,j) and (j,i) facet by facet (_align)
+ f  weights positive and equal in both directions         w >= 0, |w_ij - w_ji| <= 2.1e-6; a printed 0.000000 only for a near-
+                                                          degenerate facet of the reference; weights vs reference per bond
+ g  cell volumes sum to the box volume                    |sum - V| <= N 5.1e-7 + 2e-6 V per frame, each volume vs reference
+ h  files readable by the neighbour-file reader           read_neighbors frame by frame on one open file: neighbour file with
+                                                          Nmax >= max cn and with the default (reader-default-Nmax), weight file
+                                                          truncated and in full: exactly the parsed rows
+ i  volume-response matrix for the requested frame        volmat: frame k of the object == that frame alone (first-frame /
+                                                          middle-frame / last-frame, nconfig0..2+, box-of-frame-k-differs-from-
+                                                          frame0, second-request on the same object) + independent central
+                                                          differences of the reference volumes (deltar-default, 0.02 .. 0.001,
+                                                          ndim-default); volmat_large N>16
+ j  rows sum to zero over each displaced coordinate       |sum_j A[i, (j, c)]| <= 1e-9 N max|A| (self-image-contact /
+                                                          no-self-contact)
+ Not asserted: the transformed matrix (shape only: A A^T is singular by volume conservation), triclinic boxes (the
+ statement says orthogonal), accuracy of the finite differences themselves.
 """
 from __future__ import annotations
 
@@ -23,13 +55,24 @@ from PyMatterSim.neighbors.freud_neighbors import VolumeMatrix, cal_neighbors
 from PyMatterSim.neighbors.read_neighbors import read_neighbors
 from PyMatterSim.reader.reader_utils import Snapshots
 
-RULE = ("orthogonal periodic boxes with unequal edges and origins {0, arbitrary, centred, bounds summing to 0} x "
-        "{2D N 12..60, 3D N 20..60} x 1..3 frames (same box in all frames, or a different box per frame) x {bulk boxes, thin boxes with one edge of about one particle spacing so that cells touch their own image} x point clouds in general position (uniform, jittered lattice, "
+RULE = ("orthogonal periodic boxes with unequal edges (float64, or integer-valued as int64 arrays) and origins {0, "
+        "arbitrary, centred, bounds summing to 0} x {2D N 1..60, 3D N 1..60; medium 2D 600..1500, 3D 101..260; one 2D frame "
+        "of 66 000..72 000} x 1..3 frames (same box in all frames, or a different box per frame; a frame stored twice; "
+        "timestep labels regular / repeated / decreasing) x {bulk boxes, thin boxes with one edge of about one particle "
+        "spacing so that cells touch their own image} x point clouds in general position (uniform, jittered lattice, "
         "clustered; bulk coordinates from numpy default_rng(k) with k drawn by Hypothesis); optional whole-box image "
-        "offsets. non-trivial = coordination numbers differ between particles and (origin != 0 or >= 2 frames or "
-        "image offsets)")
+        "offsets; output names {absolute, relative, with a dot, in a sub-directory}; histories {one call, an older longer "
+        "result under the same name, the same Snapshots object refilled in place between two calls}. VolumeMatrix: N "
+        "8..16 (volmat_large: 17..36), 1..4 frames, requested frame index 0..F-1, step {default, 0.02, 0.01, 0.005, 0.001}, "
+        "a second request for another frame of the same object. non-trivial = coordination numbers differ between "
+        "particles and (origin != 0 or >= 2 frames or image offsets)")
 ASSUMPTIONS = [
-    "general position: no two particles closer than 1e-3 of the mean spacing (such draws are excluded and counted)",
+    "general position: no two particles closer than 1e-3 of the mean spacing, nor closer than 8 float32 steps at the "
+    "coordinate magnitude - freud stores float32 and voro++ terminates the process on duplicate points - (such draws "
+    "are excluded and counted); thin boxes only for N <= 60, N >= 100 at number density 1: a one-cell-wide strip of "
+    "thousands of cells makes the tessellation library itself fail (observed: segfault for 69045 points in 1.3 x 53111); "
+    "with one or two particles per box the periodic lattice itself is degenerate (four rectangular cells meet at a "
+    "corner): the zero-size facets towards diagonal images fall under the near-degenerate rule below",
     "freud stores box and points in float32: cell volumes and bond weights are compared with a tolerance made of the "
     "%.6f print rounding (5.1e-7), an analytic float32 term (ulp at L/2 times cell surface) and 8x the measured change "
     "of the float64 reference under three float32-sized perturbations of the input; bonds whose weight is below "
@@ -39,14 +82,20 @@ ASSUMPTIONS = [
     "known finding freud-drops-facet (3D only): a regular facet of the reference tessellation that is missing from the "
     "file (one or both directions) while both cell volumes are right is excluded and counted, at most 4 per frame; a "
     "listed bond that the reference does not have, or a wrong weight, is always a violation",
-    "VolumeMatrix (boxes with edges <= 8, deltar in {0.01, 0.001}) is compared with central differences of the float64 "
+    "species labels and timestep labels are irrelevant to a tessellation (drawn arbitrarily; one block per frame of the "
+    "Snapshots object in its order); every call describes the trajectory passed to it, whatever an earlier call wrote "
+    "under the same output name",
+    "VolumeMatrix (boxes with edges <= 8, deltar in {0.02, 0.01 = default, 0.005, 0.001}) is compared with central differences of the float64 "
     "reference volumes with tolerance 1e-2 of the largest entry + the float32 noise bound 4 d ulp surface/(2 deltar V); "
     "the self term is checked through the row-sum identity only",
 ]
 MANIFEST = {
     "text": "Hypothesis generated-input search: own parser + tessellation invariants + differential against an "
             "independent scipy/Qhull periodic Voronoi construction; read_neighbors hand-off; VolumeMatrix vs independent "
-            "finite differences and frame-selection metamorphic relation; facets: files2d, files3d, volmat",
+            "finite differences and frame-selection metamorphic relation; facets: files2d, files3d, files2d_small, "
+            "files3d_small (N 1..19: cells bounded by their own images), files2d_medium, files3d_medium, files2d_large, "
+            "volmat, volmat_large; classes: int64 boxes, output-name forms, call histories on one output name / one "
+            "Snapshots object, repeated and decreasing timestep labels, a frame stored twice, reader defaults",
     "note": "; ".join(ASSUMPTIONS),
     "technique": "property-based testing (Hypothesis): round trip through the written files + reference-model "
                  "differential (scipy/Qhull) + metamorphic frame selection",
@@ -56,8 +105,58 @@ MANIFEST = {
 # ----------------------------------------------------------------------------- generator
 
 
+def _int_cell(c):
+    """The same box written down with integers (edge lengths, origin): what a hand-built snapshot carries when the
+    caller types np.array([[0, 10], [0, 10]]).  Centred boxes get even edges, boxes whose bounds sum to zero an edge
+    of the parity that keeps the last origin an integer."""
+    L = np.maximum(np.rint(np.diag(c["H"])), 1.0)
+    o = c["origin"]
+    if o == "zero":
+        lo = np.zeros(len(L))
+    elif o == "centred":
+        L = 2.0 * np.maximum(np.rint(L / 2.0), 1.0)
+        lo = -L / 2.0
+    elif o == "sumzero":
+        lo = np.rint(c["lo"])
+        S = float(np.sum(2 * lo[:-1] + L[:-1]))
+        if (S + L[-1]) % 2:
+            L[-1] += 1.0
+        lo[-1] = -(S + L[-1]) / 2.0
+    else:
+        lo = np.rint(c["lo"])
+    return dict(c, H=np.diag(L), lo=lo)
+
+
+def _schedule(kind, t0, T):
+    """Timestep labels.  cal_neighbors / VolumeMatrix never read them: one block per frame of the Snapshots object,
+    in its order, also when a label repeats (restart files) or goes back."""
+    if kind == "repeat":
+        return [t0 + 100 * (k // 2) for k in range(T)]
+    if kind == "back":
+        return [t0 + 100 * (T - k) for k in range(T)]
+    return [t0 + 100 * k for k in range(T)]
+
+
+def _with_lengths(cell, L):
+    """The same kind of box (origin class kept) with other edge lengths."""
+    L = np.asarray(L, dtype=float)
+    lo = np.array(cell["lo"], dtype=float)
+    if cell["origin"] == "centred":
+        lo = -L / 2.0
+    elif cell["origin"] == "sumzero":
+        lo[-1] = -(np.sum(2 * lo[:-1] + L[:-1]) + L[-1]) / 2.0
+    return dict(cell, H=np.diag(L), lo=lo)
+
+
 @st.composite
-def cloud_st(draw, d, nmin, nmax, frames=(1, 3), lmax=30.0, small_origin=False):
+def cloud_st(draw, d, nmin, nmax, frames=(1, 3), lmax=30.0, small_origin=False, vary=(False, True), density=None,
+             thin=True):
+    """density: rescale the drawn box (aspect ratio kept) to that number density - used for N in the hundreds and
+    beyond, where edges of 3..30 would mean cells of 1e-3 and smaller whose %.6f volumes carry no digits.  thin: allow
+    the thin-box class (one edge of about one particle spacing); only for N <= 60 - a one-cell-wide strip of 1000+
+    cells is a 1000:1 box that no caller has, and the tessellation library itself gives up on such strips (voro++
+    exits on the float32 duplicates of a 3.0 x 0.0015 strip of 1279 points; freud 3.5.0 segfaults for 69045 points in
+    1.3 x 53111)."""
     cell = draw(cell_st(d, "ortho", lmin=3.0, lmax=lmax))
     if small_origin and cell["origin"] in ("arbitrary", "sumzero"):
         Lc = np.diag(cell["H"])
@@ -71,7 +170,10 @@ def cloud_st(draw, d, nmin, nmax, frames=(1, 3), lmax=30.0, small_origin=False):
     seeds = [draw(st.integers(0, 2**32 - 1)) for _ in range(T)]
     jit = draw(st.sampled_from([0.1, 0.25, 0.4]))
     outside = draw(st.booleans())
-    shape = draw(st.sampled_from(["bulk", "bulk", "bulk", "thin"]))
+    if density is not None:
+        L0 = np.diag(cell["H"])
+        cell = _with_lengths(cell, L0 * (N / (density * float(np.prod(L0)))) ** (1.0 / d))
+    shape = draw(st.sampled_from(["bulk", "bulk", "bulk", "thin"])) if thin else "bulk"
     if shape == "thin":
         # one edge of about one particle spacing: cells touch their own periodic image (self bonds, repeated bonds)
         a = draw(st.integers(0, d - 1))
@@ -84,7 +186,7 @@ def cloud_st(draw, d, nmin, nmax, frames=(1, 3), lmax=30.0, small_origin=False):
             cell["lo"] = -L0 / 2.0
     # per-frame boxes (NPT-like trajectories): the writer tessellates every frame in its own box
     cells = [cell]
-    varybox = T >= 2 and draw(st.booleans())
+    varybox = T >= 2 and draw(st.sampled_from(list(vary)))
     for _ in range(T - 1):
         if varybox:
             fac = np.array([draw(st.sampled_from([0.8, 0.9, 1.0, 1.1, 1.25])) for _ in range(d)])
@@ -93,6 +195,16 @@ def cloud_st(draw, d, nmin, nmax, frames=(1, 3), lmax=30.0, small_origin=False):
             cells.append(dict(cell, H=np.diag(Lk), lo=np.array(lok, dtype=float) * np.ones(d)))
         else:
             cells.append(cell)
+    # argument representation: integer-valued edges and origin, handed over as int64 arrays (see _snapshots)
+    intbox = draw(st.sampled_from([False, False, False, True]))
+    if intbox:
+        cells = [_int_cell(c) for c in cells]
+        cell = cells[0]
+    # the same configuration stored twice (a restart writes the last frame again)
+    dup = T >= 2 and draw(st.sampled_from([False, False, True]))
+    kdup = draw(st.integers(1, T - 1)) if dup else 0
+    if dup:
+        cells[kdup] = cells[0]
     pos = []
     for s, ck in zip(seeds, cells):
         L = np.diag(ck["H"])
@@ -109,23 +221,63 @@ def cloud_st(draw, d, nmin, nmax, frames=(1, 3), lmax=30.0, small_origin=False):
             f = ((g + 0.5 + jit * (rng.random((N, d)) - 0.5) * 2) / m) % 1.0
         off = rng.integers(-1, 2, (N, d)).astype(float) if outside else 0.0
         pos.append(ck["lo"] + (f + off) * L)
+    if dup:
+        pos[kdup] = pos[0].copy()
     t0 = draw(st.integers(0, 10**6))
+    sched = draw(st.sampled_from(["regular", "regular", "repeat", "back"])) if T >= 2 else "regular"
+    # species labels are irrelevant to a tessellation; drawn so that no frame is special-cased through them
+    types = np.array(draw(st.lists(st.integers(1, 3), min_size=N, max_size=N)), dtype=int) if N <= 100 else \
+        np.random.default_rng(seeds[0]).integers(1, 4, N)
     return {"d": d, "cell": cell, "cells": cells, "shape": shape, "varybox": bool(varybox and any(
                 not np.array_equal(c["H"], cell["H"]) for c in cells)),
-            "pos": pos, "types": np.ones(N, dtype=int), "kind": kind, "outside": outside,
-            "timesteps": [t0 + 100 * k for k in range(T)],
+            "pos": pos, "types": types, "kind": kind, "outside": outside,
+            "timesteps": _schedule(sched, t0, T), "schedule": sched, "intbox": intbox, "dup": bool(dup),
+            "outname": draw(st.sampled_from(["abs", "abs", "rel", "dotted", "subdir"])),
+            "again": draw(st.sampled_from(["no", "no", "no", "decoy-first", "inplace"])),
+            "decoy_seed": draw(st.integers(0, 2**32 - 1)), "reader_default": draw(st.booleans()),
             "nmax_extra": draw(st.integers(0, 5)), "nmax_trunc": draw(st.integers(1, 4))}
 
 
-def _snapshots(case, frames=None):
+def _int_box_snapshot(cell, pos, types, ts):
+    from PyMatterSim.reader.reader_utils import SingleSnapshot
+
+    L = np.rint(np.diag(cell["H"])).astype(np.int64)
+    lo = np.rint(cell["lo"]).astype(np.int64)
+    return SingleSnapshot(timestep=int(ts), nparticle=len(pos), particle_type=np.array(types, dtype=int),
+                          positions=np.array(pos, dtype=float), boxlength=L.copy(),
+                          boxbounds=np.stack([lo, lo + L], axis=1), realbounds=None, hmatrix=np.diag(L))
+
+
+def _snapshots(case, frames=None, pos=None):
     idx = range(len(case["pos"])) if frames is None else frames
-    snaps = [snapshot_from(case["cells"][k], case["pos"][k], case["types"], case["timesteps"][k]) for k in idx]
+    pos = case["pos"] if pos is None else pos
+    make = _int_box_snapshot if case.get("intbox") else snapshot_from
+    snaps = [make(case["cells"][k], pos[k], case["types"], case["timesteps"][k]) for k in idx]
     return Snapshots(nsnapshots=len(snaps), snapshots=snaps)
 
 
-def _general_position(case):
+def _decoy_positions(case, extra=0):
+    """Other configurations in the same boxes (numpy default_rng(seed), seed drawn by Hypothesis): what an earlier call
+    on the same output name, or the same Snapshots object before it was refilled, was about."""
+    rng = np.random.default_rng(case.get("decoy_seed", 0))
+    N, d = case["pos"][0].shape
+    return [ck["lo"] + rng.random((N + extra, d)) * np.diag(ck["H"]) for ck in case["cells"]]
+
+
+def _f32_resolution(pos, lo, L):
+    """Spacing of float32 numbers at the largest coordinate magnitude the tessellation library may hold (it stores the
+    points in float32: raw coordinates when the bounds sum to zero, coordinates relative to the box centre otherwise,
+    and wraps them by the float32 edge lengths)."""
+    m = max(float(np.abs(pos).max()), float(np.abs(pos - lo - 0.5 * L).max()), float(np.max(L)))
+    return float(np.spacing(np.float32(m)))
+
+
+def _general_position(case, pos=None):
+    """No two particles (periodic images included) closer than 1e-3 of the mean spacing, nor closer than 8 float32
+    steps at the coordinate magnitude: after the conversion to float32 (each coordinate off by <= 1/2 step, the wrap by
+    another step) they would coincide or nearly so, and voro++ terminates the process on duplicate points."""
     d = case["d"]
-    for p, ck in zip(case["pos"], case["cells"]):
+    for p, ck in zip(case["pos"] if pos is None else pos, case["cells"]):
         L = np.diag(ck["H"])
         N = len(p)
         spacing = (np.prod(L) / N) ** (1.0 / d)
@@ -134,7 +286,7 @@ def _general_position(case):
         dr = q[:, None, :] - q[None, :, :]
         dr -= np.round(dr / L) * L
         dist = np.sqrt((dr ** 2).sum(-1)) + np.eye(N) * 1e9
-        if dist.min() < 1e-3 * spacing:
+        if dist.min() < max(1e-3 * spacing, 8.0 * _f32_resolution(p, ck["lo"], L)):
             return False
     return True
 
@@ -243,14 +395,34 @@ def check_files(case):
     d = case["d"]
     if not _general_position(case):
         return {"nontrivial": False, "tags": ["excluded-near-coincident"], "extra": {"excluded": 1}}
-    snaps = _snapshots(case)
     N = len(case["types"])
     T = len(case["pos"])
+    # output name: absolute, relative, with a dot inside, inside a sub-directory (the three suffixes are appended)
+    outname = case.get("outname", "abs")
+    out = {"abs": os.path.join(os.getcwd(), "voro"), "rel": "voro", "dotted": "run.1",
+           "subdir": os.path.join("res", "voro.out")}[outname]
+    if outname == "subdir":
+        os.makedirs("res", exist_ok=True)
+    for suffix in (".neighbor.dat", ".edgelength.dat", ".facearea.dat", ".overall.dat"):
+        if os.path.exists(out + suffix):
+            os.remove(out + suffix)
+    # history: every call describes the trajectory passed to it, whatever the same name / the same object held before
+    again = case.get("again", "no")
+    if again != "no" and not _general_position(case, _decoy_positions(case, extra=3 if again == "decoy-first" else 0)):
+        again = "no"             # (a decoy with two nearly coincident points is not used)
+    if again == "decoy-first":   # an earlier, longer result under the same name (3 more particles, one more frame)
+        dpos = _decoy_positions(case, extra=3)
+        decoy = dict(case, pos=dpos + [dpos[0][::-1].copy()], cells=case["cells"] + [case["cells"][0]],
+                     types=np.ones(N + 3, dtype=int), timesteps=list(case["timesteps"]) + [case["timesteps"][-1] + 100])
+        cal_neighbors(_snapshots(decoy), outputfile=out)
+    if again == "inplace":       # the same Snapshots object, refilled in place between two calls
+        snaps = _snapshots(case, pos=_decoy_positions(case))
+        cal_neighbors(snaps, outputfile=out)
+        for sn, p in zip(snaps.snapshots, case["pos"]):
+            sn.positions[...] = p
+    else:
+        snaps = _snapshots(case)
     before = [s.positions.copy() for s in snaps.snapshots]
-    out = os.path.join(os.getcwd(), "voro")
-    for fn in ("voro.neighbor.dat", "voro.edgelength.dat", "voro.facearea.dat", "voro.overall.dat"):
-        if os.path.exists(fn):
-            os.remove(fn)
     cal_neighbors(snaps, outputfile=out)
     for s, b in zip(snaps.snapshots, before):
         require(np.array_equal(s.positions, b), "cal_neighbors modified the snapshot positions")
@@ -301,13 +473,15 @@ def check_files(case):
                                        f"(near-degenerate threshold {wtol:.2e}); facets {ws} vs {back}")
                     ambiguous += 1
         vols = np.array([v for _, v in ov[k]])
-        require(np.all(vols > 0), f"frame {k}: non-positive cell volume")
+        require(np.all(vols >= 0), f"frame {k}: negative cell volume")
         require(abs(vols.sum() - V) <= N * 5.1e-7 + 2e-6 * V,
                 f"frame {k}: cell volumes sum to {vols.sum()!r}, box volume {V!r}")
         # differential against the independent tessellation; tolerances are calibrated per cell / per bond from the
         # measured sensitivity of the reference to float32-sized input perturbations (see ASSUMPTIONS)
         rvol, rtab, svol, sw, unstable, surf, eps = _ref_with_sensitivity(case["pos"][k], case["cells"][k]["lo"], L)
         vtol = 5.1e-7 + 1e-9 * V + 8 * svol + 4 * d * eps * surf
+        # positive: a volume may print as 0.000000 only if the cell itself is below the print resolution
+        require(np.all((vols > 0) | (rvol < 2e-6)), f"frame {k}: non-positive cell volume")
         badv = np.abs(vols - rvol) > vtol
         require(not badv.any(), lambda: f"frame {k}: cell volume of id {int(np.argmax(badv)) + 1} is {vols[badv][0]!r}, "
                                         f"reference {rvol[badv][0]!r} (tolerance {vtol[badv][0]:.2e})")
@@ -356,6 +530,25 @@ def check_files(case):
                 c = len(nb[k][i])
                 want = [c] + [int(v) - 1 for v in nb[k][i]] + [0] * (a.shape[1] - 1 - c)
                 require(a[i].tolist() == want, f"read_neighbors frame {k} particle {i}: {a[i].tolist()} != {want}")
+    if case.get("reader_default"):  # Nmax left at the reader's default (200)
+        with open(out + ".neighbor.dat") as f:
+            for k in range(T):
+                a = arr(f"read_neighbors(neighbour file, default Nmax) frame {k}", read_neighbors(f, N), ndim=2)
+                fmax = max(len(r) for r in nb[k])
+                require(a.shape == (N, 1 + fmax), f"read_neighbors (default Nmax) frame {k}: shape {a.shape}, max cn {fmax}")
+                for i in range(N):
+                    c = len(nb[k][i])
+                    want = [c] + [int(v) - 1 for v in nb[k][i]] + [0] * (fmax - c)
+                    require(a[i].tolist() == want, f"read_neighbors (default Nmax) frame {k} particle {i}: {a[i].tolist()} != {want}")
+        with open(wname) as f:      # the weight file in full
+            for k in range(T):
+                a = arr(f"read_neighbors(weight file, full) frame {k}", read_neighbors(f, N, Nmax=maxcn + 1), ndim=2)
+                fmax = max(len(r) for r in wt[k])
+                require(a.shape == (N, 1 + fmax), f"read_neighbors(weights, full) frame {k}: shape {a.shape}, max cn {fmax}")
+                for i in range(N):
+                    c = len(wt[k][i])
+                    want = [float(c)] + wt[k][i] + [0.0] * (fmax - c)
+                    require(np.array_equal(a[i], np.array(want)), f"read_neighbors(weights, full) frame {k} particle {i}: {a[i].tolist()} != {want}")
     nt = min(case["nmax_trunc"], maxcn)
     with open(wname) as f:
         for k in range(T):
@@ -369,8 +562,18 @@ def check_files(case):
     origin = case["cell"]["origin"]
     nontrivial = bool(cn_varies and (origin != "zero" or T >= 2 or case["outside"]))
     tags = [f"d{d}", f"origin-{origin}", f"frames{T}", case["kind"], "outside" if case["outside"] else "inside",
-            "N<=20" if N <= 20 else "N>20", "box-" + case["shape"], "box-varies" if case["varybox"] else "box-constant",
-            "self-image-bonds" if self_bonds else "no-self-bonds"]
+            "N1-3" if N <= 3 else ("N4-11" if N <= 11 else ("N<=20" if N <= 20 else ("N>20" if N <= 100 else "N>100"))),
+            "box-" + case["shape"], "box-varies" if case["varybox"] else "box-constant",
+            "self-image-bonds" if self_bonds else "no-self-bonds", "out-" + outname, "again-" + again,
+            "box-int64" if case.get("intbox") else "box-float"]
+    if T >= 2:
+        tags.append("ts-" + case.get("schedule", "regular"))
+    if case.get("dup"):
+        tags.append("frame-stored-twice")
+    if case.get("reader_default"):
+        tags.append("reader-default-Nmax")
+    if len(set(np.asarray(case["types"]).tolist())) > 1:
+        tags.append("types-mixed")
     return {"nontrivial": nontrivial, "tags": tags, "extra": {"ambiguous_facets": ambiguous, "self_image_bonds": self_bonds,
                                                               "excluded_known_freud_dropped_facets": known_dropped}}
 
@@ -387,7 +590,7 @@ def large_cloud_st(draw):
     packed 32-bit keys, id products and row offsets overflow (seeded C20-C).  Uniform random points in a box of the
     matching area, any origin kind."""
     N = draw(st.integers(66000, 72000))
-    return draw(cloud_st(2, N, N, frames=(1, 1), lmax=30.0)) | {"large": True}
+    return draw(cloud_st(2, N, N, frames=(1, 1), lmax=30.0, thin=False)) | {"large": True}
 
 
 def _rescale_large(case):
@@ -396,9 +599,9 @@ def _rescale_large(case):
     L0 = np.diag(case["cell"]["H"])
     fac = np.sqrt(N / float(np.prod(L0)))
     lo0 = case["cell"]["lo"]
-    cell = dict(case["cell"], H=np.diag(L0 * fac), lo=lo0 * fac)
+    cell = _with_lengths(case["cell"], L0 * fac)   # origin class kept, origin magnitude as drawn (<= 50)
     pos = [(p - lo0) * fac + cell["lo"] for p in case["pos"]]
-    return dict(case, cell=cell, cells=[cell], pos=pos)
+    return dict(case, cell=cell, cells=[cell], pos=pos, intbox=False)
 
 
 def check_large(case):
@@ -408,7 +611,7 @@ def check_large(case):
     from scipy.spatial import cKDTree
     wrapped = (pos - lo) % L
     dmin = cKDTree(wrapped, boxsize=L).query(wrapped, k=2)[0][:, 1].min()
-    if dmin < 1e-3:
+    if dmin < max(1e-3, 8.0 * _f32_resolution(pos, lo, L)):
         return {"nontrivial": False, "tags": ["excluded-near-coincident"], "extra": {"excluded": 1}}
     snaps = _snapshots(case)
     out = os.path.join(os.getcwd(), "voro")
@@ -466,30 +669,37 @@ def describe_large(case):
 
 
 @st.composite
-def volmat_st(draw):
+def volmat_st(draw, n2=(8, 14), n3=(12, 16), frames=(1, 4)):
     d = draw(st.sampled_from([2, 2, 3]))
     # edges <= 8: the finite-difference quotient amplifies the float32 input rounding (one ulp at L/2) by 1/(2 deltar)
     # and |origin| <= 4 (the library does not centre a box whose bounds sum to zero, so raw magnitudes matter)
-    case = draw(cloud_st(d, 8 if d == 2 else 12, 14 if d == 2 else 16, lmax=8.0, small_origin=True))
+    lo, hi = n2 if d == 2 else n3
+    case = draw(cloud_st(d, lo, hi, frames=frames, lmax=8.0, small_origin=True, vary=(False, True, True)))
     T = len(case["pos"])
-    case["nconfig"] = draw(st.integers(0, T - 1))
-    case["deltar"] = draw(st.sampled_from([0.01, 0.001]))
-    case["save"] = draw(st.booleans())
+    # requested frame: counted from the last one, so that Hypothesis' preference for small integers favours the frames
+    # a "first frame only" slip gets wrong
+    case["nconfig"] = T - 1 - draw(st.integers(0, T - 1))
+    # step: the documented default (not passed), or an explicit one on either side of it
+    case["deltar"] = draw(st.sampled_from([None, 0.01, 0.001, 0.001, 0.005, 0.02]))
+    case["omit_ndim"] = d == 2 and draw(st.booleans())     # ndim = 2 is the documented default
+    case["save"] = draw(st.sampled_from([False, True, True]))
+    case["savename"] = draw(st.sampled_from(["volmat.npy", "volmat", "vm.raw.dat"]))   # np.save appends .npy
+    case["second"] = T >= 2 and draw(st.booleans())        # then also ask for another frame of the same object
     return case
 
 
 def _ref_matrix(pos, lo, L, deltar):
     N, d = pos.shape
     base = pos - lo
-    V0, _ = voro.periodic_voronoi(base, L)
+    V0, _ = voro.periodic_voronoi(base, L, bonds=False)
     A = np.zeros((N, N * d))
     for i in range(N):
         for j in range(d):
             p = base.copy()
             p[i, j] += deltar
-            V1, _ = voro.periodic_voronoi(p, L)
+            V1, _ = voro.periodic_voronoi(p, L, bonds=False)
             p[i, j] -= 2 * deltar
-            V2, _ = voro.periodic_voronoi(p, L)
+            V2, _ = voro.periodic_voronoi(p, L, bonds=False)
             A[:, d * i + j] = (V1 - V2) / (2 * deltar)
     return A / V0[:, None], V0
 
@@ -505,34 +715,54 @@ def check_volmat(case):
     L = np.diag(cellk["H"])
     snaps = _snapshots(case)
     before = [s.positions.copy() for s in snaps.snapshots]
-    outfile = os.path.join(os.getcwd(), "volmat.npy") if case["save"] else ""
+    savename = case.get("savename", "volmat.npy")
+    outfile = os.path.join(os.getcwd(), savename) if case["save"] else ""
+    written = outfile if outfile.endswith(".npy") else outfile + ".npy"   # numpy.save appends the extension
+    deltar = 0.01 if case["deltar"] is None else case["deltar"]           # documented default
+    kw = {}
+    if case["deltar"] is not None:
+        kw["deltar"] = case["deltar"]
+    if not case.get("omit_ndim"):
+        kw["ndim"] = d
+    if os.path.exists(written):
+        os.remove(written)
     A = arr("VolumeMatrix(transform_matrix=False)",
-            VolumeMatrix(snaps, ndim=d, nconfig=k, deltar=case["deltar"], transform_matrix=False, outputfile=outfile),
-            shape=(N, N * d))
+            VolumeMatrix(snaps, nconfig=k, transform_matrix=False, outputfile=outfile, **kw), shape=(N, N * d))
     for s, b in zip(snaps.snapshots, before):
         require(np.array_equal(s.positions, b), "VolumeMatrix modified the snapshot positions")
     require(np.all(np.isfinite(A)), "VolumeMatrix returned non-finite entries")
     if case["save"]:
-        require(os.path.exists(outfile), "VolumeMatrix(outputfile=...) wrote no file")
-        close("saved raw matrix", np.load(outfile), A, rtol=0, atol=0)
+        require(os.path.exists(written), f"VolumeMatrix(outputfile={savename!r}) wrote no file {os.path.basename(written)}")
+        close("saved raw matrix", np.load(written), A, rtol=0, atol=0)
     # rows sum to zero over each displaced coordinate
     rs = A.reshape(N, N, d).sum(axis=1)
     scale = np.abs(A).max()
     require(np.all(np.abs(rs) <= 1e-9 * scale * N), f"rows do not sum to zero per displaced coordinate: max {np.abs(rs).max():.3e}")
     # frame selection: frame k of the trajectory == that frame alone
     single = _snapshots(case, frames=[k])
-    A1 = arr("VolumeMatrix(single frame)", VolumeMatrix(single, ndim=d, nconfig=0, deltar=case["deltar"],
+    A1 = arr("VolumeMatrix(single frame)", VolumeMatrix(single, ndim=d, nconfig=0, deltar=deltar,
                                                         transform_matrix=False), shape=(N, N * d))
     close("matrix for frame k of a trajectory vs that frame alone", A, A1, rtol=1e-9, atol=1e-12 * scale)
+    if case.get("second") and T >= 2:
+        # a second request on the same Snapshots object, for another frame: again that frame alone
+        k2 = (k + 1) % T
+        A2 = arr("VolumeMatrix(second request)", VolumeMatrix(snaps, d, k2, deltar, False), shape=(N, N * d))
+        A2s = arr("VolumeMatrix(single frame, second request)",
+                  VolumeMatrix(_snapshots(case, frames=[k2]), ndim=d, nconfig=0, deltar=deltar, transform_matrix=False),
+                  shape=(N, N * d))
+        close("second request (another frame of the same object) vs that frame alone", A2, A2s, rtol=1e-9,
+              atol=1e-12 * np.abs(A2s).max())
+        for s, b in zip(snaps.snapshots, before):
+            require(np.array_equal(s.positions, b), "VolumeMatrix (second request) modified the snapshot positions")
     # independent central differences (float64 Qhull volumes); the self term is not compared (it is defined by the
     # row sums).  Noise model: each float32-rounded input moves a cell volume by <~ eps * surface, the difference
     # quotient divides that by 2 deltar.
-    R, V0 = _ref_matrix(case["pos"][k], cellk["lo"], L, case["deltar"])
+    R, V0 = _ref_matrix(case["pos"][k], cellk["lo"], L, deltar)
     _, rbonds = voro.periodic_voronoi(case["pos"][k] - cellk["lo"], L)
     surf = np.array([sum(w for _, w in rbonds[i]) for i in range(N)])
     eps = _f32_eps(L, case["pos"][k], cellk["lo"])
     self_touch = any(j == i for i in range(N) for j, _ in rbonds[i])
-    noise = 4 * d * eps * surf / (2 * case["deltar"])  # per row, in units of volume per length
+    noise = 4 * d * eps * surf / (2 * deltar)  # per row, in units of volume per length
     off = np.ones((N, N * d), dtype=bool)
     for i in range(N):
         off[i, d * i:d * i + d] = False
@@ -548,7 +778,7 @@ def check_volmat(case):
     # transformed matrix: shape only (A A^T is singular by volume conservation)
     tfile = os.path.join(os.getcwd(), "volmat_t.npy") if case["save"] else ""
     try:
-        B = VolumeMatrix(snaps, ndim=d, nconfig=k, deltar=case["deltar"], transform_matrix=True, outputfile=tfile)
+        B = VolumeMatrix(snaps, ndim=d, nconfig=k, deltar=deltar, transform_matrix=True, outputfile=tfile)
     except np.linalg.LinAlgError:
         B = None  # exactly singular A A^T: no contract
     if B is not None:
@@ -556,9 +786,23 @@ def check_volmat(case):
         if case["save"] and np.all(np.isfinite(np.asarray(B))):
             close("saved transformed matrix", np.load(tfile), B, rtol=0, atol=0)
     distinct_frames = T >= 2 and k >= 1
-    tags = [f"d{d}", f"origin-{case['cell']['origin']}", f"frames{T}", f"nconfig{min(k, 2)}", f"deltar{case['deltar']}",
-            "saved" if case["save"] else "unsaved", "outside" if case["outside"] else "inside", "box-" + case["shape"],
-            "box-varies" if case["varybox"] else "box-constant", "self-image-contact" if self_touch else "no-self-contact"]
+    tags = [f"d{d}", f"origin-{case['cell']['origin']}", f"frames{T}", f"nconfig{min(k, 2)}" + ("+" if k > 2 else ""),
+            "deltar-default" if case["deltar"] is None else f"deltar{case['deltar']}",
+            ("saved-" + savename) if case["save"] else "unsaved", "outside" if case["outside"] else "inside",
+            "box-" + case["shape"], "box-varies" if case["varybox"] else "box-constant",
+            "self-image-contact" if self_touch else "no-self-contact", "box-int64" if case.get("intbox") else "box-float",
+            "N<=16" if N <= 16 else "N>16"]
+    if T >= 2:
+        tags.append("last-frame" if k == T - 1 else ("first-frame" if k == 0 else "middle-frame"))
+        tags.append("ts-" + case.get("schedule", "regular"))
+        if case["varybox"] and k >= 1 and not np.array_equal(case["cells"][k]["H"], case["cells"][0]["H"]):
+            tags.append("box-of-frame-k-differs-from-frame0")
+    if case.get("omit_ndim"):
+        tags.append("ndim-default")
+    if case.get("second") and T >= 2:
+        tags.append("second-request")
+    if case.get("dup"):
+        tags.append("frame-stored-twice")
     return {"nontrivial": bool(distinct_frames or case["cell"]["origin"] != "zero"), "tags": tags}
 
 
@@ -591,12 +835,24 @@ FACETS = [
           rule="2D; see RULE"),
     Facet("files3d", cloud_st(3, 20, 60), check_files, quick=80, thorough=4000, describe=describe, shards_quick=4,
           rule="3D; see RULE"),
-    Facet("files2d_medium", cloud_st(2, 600, 1500, frames=(1, 2), lmax=30.0), check_files, quick=2, thorough=48,
+    Facet("files2d_small", cloud_st(2, 1, 11), check_files, quick=100, thorough=4000, describe=describe,
+          rule="2D, N 1..11: every cell touches images of itself and of the same neighbour several times (N = 1: the "
+               "cell is the box, all neighbours are the particle itself); see RULE"),
+    Facet("files3d_small", cloud_st(3, 1, 19), check_files, quick=60, thorough=3000, describe=describe, shards_quick=2,
+          rule="3D, N 1..19; see RULE"),
+    Facet("files2d_medium", cloud_st(2, 600, 1500, frames=(1, 2), lmax=30.0, density=1.0, thin=False), check_files, quick=2, thorough=48,
           describe=describe, rule="2D, N 600..1500 (all checks of files2d incl. the Qhull reference); see RULE"),
+    Facet("files3d_medium", cloud_st(3, 101, 260, frames=(1, 2), lmax=30.0, density=1.0, thin=False), check_files, quick=2, thorough=64,
+          describe=describe, shards_quick=2,
+          rule="3D, N 101..260, 1-2 frames (all checks of files3d incl. the Qhull reference); see RULE"),
     Facet("files2d_large", large_cloud_st(), check_large, quick=1, thorough=6, shards_thorough=2, describe=describe_large,
           thorough_budget_s=3000.0,
           rule="one frame of 66 000..72 000 particles in 2D (N (N+1) > 2^32): file structure, "
                "coordination numbers, symmetry and weights of all regular facets, area sum, reader hand-off"),
-    Facet("volmat", volmat_st(), check_volmat, quick=40, thorough=1500, describe=describe, shards_quick=4,
-          rule="N 8..16; requested frame index 0..F-1; non-trivial = frame index >= 1 or origin != 0"),
+    Facet("volmat", volmat_st(), check_volmat, quick=48, thorough=1600, describe=describe, shards_quick=4,
+          rule="N 8..16, 1..4 frames; requested frame index 0..F-1 (last frames favoured); step default / 0.02 .. 0.001; "
+               "non-trivial = frame index >= 1 or origin != 0"),
+    Facet("volmat_large", volmat_st(n2=(17, 36), n3=(17, 30), frames=(1, 3)), check_volmat, quick=2, thorough=160,
+          describe=describe, shards_quick=2, thorough_budget_s=1500.0,
+          rule="N 17..36 (2D) / 17..30 (3D); as volmat"),
 ]
